@@ -712,7 +712,7 @@ func runSequential(r *lib.Run) {
 		wg.Add(1)
 		go func(sh int) {
 			defer wg.Done()
-			runSequentialShard(r, sh, r.N(4000, 180000)/shards)
+			runSequentialShard(r, sh, r.N(3200, 180000)/shards)
 		}(sh)
 	}
 	wg.Wait()
@@ -906,7 +906,7 @@ var parkedHdr = regexp.MustCompile(`\[sync\.RWMutex\.R?Lock(,|\])`)
 func runConcurrent(r *lib.Run) {
 	t0 := time.Now()
 	defer func() { r.Set("conc_wall_s", time.Since(t0).Seconds()) }()
-	n := r.N(2000, 40000)
+	n := r.N(1600, 40000)
 	rng := r.Rng("conc")
 	var checked, illegal, explained, unknown, tainted, rejReg, rejCan, admittedN, kicked int
 	sigs := map[string]struct{}{}
